@@ -88,9 +88,9 @@ var (
 	nonEscapes = []string{"\\a", "\\1", "\\é", "a\\b"}
 	mustaches  = []string{"{{ content }}", "{{ x }}", "{{x}}", "{{ 1 + 1 }}", "{{ level }}", "{{ href }}", "{{ code }}", "{{", "}}", "{{ content | upper }}", "{ { x } }", "{{ title }}", "{{ label }}", "{{{ x }}}", "{{ items[0].a }}", "{{ '<q>' }}"}
 	codeAtoms  = []string{"x", "a  b", "<q>", "&amp;", "&", "{{ x }}", "{{ content }}", "*a*", "\\*", "\\", "[l](u)", "a|b", "<!-- c -->", "'q'", "\"", "fn(a, b)", "é", "$1", "#", "-", "1.", ">", "</code>", "</pre>", "{{ code }}", "~~~", "}}"}
-	dests      = []string{"/p", "http://x.y/a?b=1&c=2", "<a b>", "/u(v)", "#frag", "/ä", "/a%20b", "/q?x={{x}}", "", "<>", "/a_b*c", "mailto:a@b.c", "//h/p", "/a\"b", "/a'b", "/%zz", "/a+b", "/#{{href}}", "javascript:alert(1)", "/a~b|c"}
-	destsEsc   = []string{"/a&amp;b", "/a\\*b", "/a\\)b", "/&copy;", "/a\\\\b", "<a\\>b>"}
-	titlesSafe = []string{"t", "two words", "ti&tle", "a<b", "{{ title }}", "é", "it's", "a > b", "say (x)", "{{ x }}", "x  y", "<b>bold</b>", "&", "a & b < c"}
+	dests      = []string{"/p", "http://x.y/a?b=1&c=2", "<x y>", "/u(v)", "#frag", "/ä", "/a%20b", "/q?x={{x}}", "", "<>", "/a_b*c", "mailto:a@b.c", "//h/p", "/a\"b", "/a'b", "/%zz", "/a+b", "/#{{href}}", "javascript:alert(1)", "/a~b|c"}
+	destsEsc   = []string{"/a&amp;b", "/a\\*b", "/a\\)b", "/&copy;", "/a\\\\b", "<x\\>y>"}
+	titlesSafe = []string{"t", "two words", "ti&tle", "a<b", "{{ title }}", "é", "it's", "a > b", "say (x)", "{{ x }}", "x  y", "<q>bold</q>", "&", "a & b < c"}
 	titlesEsc  = []string{"a &amp; b", "q\\\"q", "&copy; me", "a\\*b", "&#35;1", "\\\\", "&lt;b&gt;"}
 	infoSafe   = []string{"go", "c++", "go linenos", "html", "{{x}}", "a.b", "é", "x-y_z", "C#", "python3 {hl_lines=[1]}", "a<b", "a&b", "\"q\""}
 	infoEsc    = []string{"a\\*b", "a&amp;b", "&copy;", "a\\_b"}
@@ -293,6 +293,10 @@ func (g *gen) rawTag(tag string) string {
 	return "<" + tag
 }
 
+// rawInline draws inline raw HTML. Elements with content are never "formatting elements" of the
+// HTML parser (a, b, i, u, em, code, ...): Markdown can split an inline element across blocks, and the
+// parser's re-opening of formatting elements depends on white space between blocks, which is not
+// compared.
 func (g *gen) rawInline(depth int, oneLine bool) string {
 	inner := g.word()
 	if depth < maxInlineDepth && g.chance("rawInner", 40) {
@@ -314,16 +318,16 @@ func (g *gen) rawInline(depth int, oneLine bool) string {
 	case 5:
 		return g.rawTag("img") + ` src="a.png" alt="">`
 	case 6:
-		return `<b title="a&amp;b">` + inner + `</b>`
+		return `<mark title="a&amp;b">` + inner + `</mark>`
 	case 7:
-		return `<i data-x='{{ y }}'>` + inner + `</i>`
+		return `<var data-x='{{ y }}'>` + inner + `</var>`
 	case 8:
 		return `<sup>` + g.of("mu", mustaches) + `</sup>`
 	case 9:
 		return `<span
  title="two lines">` + inner + `</span>`
 	case 10:
-		return `<u class=c>` + inner + `</u>`
+		return `<samp class=c>` + inner + `</samp>`
 	default:
 		return `<abbr title="&lt;x&gt; &quot;q&quot;">` + inner + `</abbr>`
 	}
@@ -774,7 +778,7 @@ func (g *gen) htmlBlock() []string {
 		{[]string{`<?php`, `echo "` + w + `";`, `?>`}, true},                                                       // 3
 		{[]string{`<!X`, w + `>`}, true},                                                                           // 4
 		{[]string{`<![CDATA[`, w, `]]>`}, true},                                                                    // 5
-		{[]string{g.rawTag("pre") + `><code data-raw="1">` + w + `</code>`, `</pre> <b>tail ` + w + `</b>`}, true}, // 1
+		{[]string{g.rawTag("pre") + `><code data-raw="1">` + w + `</code>`, `</pre> <q>tail ` + w + `</q>`}, true}, // 1
 	}
 	f := forms[g.n("hform", 0, len(forms)-1)]
 	if f.closure && !g.allow(fHTMLClosure) {
